@@ -7,20 +7,22 @@ import GoldModel.Drive.ExSpec
 `Kind:value:sl:sc:el:ec`, `ex` = the prefix form of `exspec`):
 
     prog   := decl*
-    decl   := DP t mname params mods body | DF t mname params t t mods body | DC t t t t opt | DV opt t t ty { t* } abs | DT t t t ty
+    decl   := DP t mname params mods body | DF t mname params t t mods body | DC t t t t opt | DV opt t t tyx { t* } abs | DT t t t tyx
              | DK - t t | DK + t t t t t | DM t t | DU t t commas
     mname  := N t | V t t t
     mods   := { (M t | X t t)* }
     body   := - | + stmts t
     params := - | E t t | L t param (, t param)* . t
     param  := M t t t ty | N t t ty
-    ty     := YB t | YS t t t t | YR t t abs | YG t t t | YE t t t | YP t t | YA t idx (- | + idx) t t | YI t t
+    tyx    := ty | XR t (- | + t t t) { (F t t ty)* } t | XP t params | XF t params t t
+    cop    := CB t | CE t t | CL t evar (, t evar)* . t      evar := EN t | EV t t t
+    ty     := YC cop (+ t cop)* . | YB t | YS t t t t | YR t t abs | YG t t t | YE t t t | YP t t | YA t idx (- | + idx) t t | YI t t
     idx    := IB t t t | IR t t t t t
     stmts  := [ stmt* ]
     opt    := - | + t
     abs    := - | + t t
     commas := (, t t)* .
-    stmt   := SA ex t ex | SE ex | SR t ex | SC t | SV t t t ty abs | ST t t t ty | SS t t commas | SK t t t t opt | SI t ex stmts tail
+    stmt   := SA ex t ex | SE ex | SR t ex | SC t | SV t t t tyx abs | ST t t t tyx | SS t t commas | SK t t t t opt | SI t ex stmts tail
             | SZ t ex { when* } opt stmts t   (when := W t vals stmts t ; vals := VR t t t | VL t commas)
             | SW t ex stmts t | SL t stmts t | SF t t t ex t ex step stmts t | SX t ex stmts t | SU t stmts t ex
     tail   := TE t | TL t stmts t | TF t ex stmts tail
@@ -55,7 +57,45 @@ def idx : P Idx
     pure (⟨l, .range a b c, r⟩, ws)
   | _ => none
 
+def evar : P EVar
+  | "EN" :: ws => do
+    let (n, ws) ← tok ws
+    pure (⟨n, none⟩, ws)
+  | "EV" :: ws => do
+    let (n, ws) ← tok ws; let (e, ws) ← tok ws; let (v, ws) ← tok ws
+    pure (⟨n, some (e, v)⟩, ws)
+  | _ => none
+
+partial def evarRest : P (List (Tok × EVar))
+  | "." :: ws => some ([], ws)
+  | "," :: ws => do
+    let (c, ws) ← tok ws; let (v, ws) ← evar ws; let (more, ws) ← evarRest ws
+    pure ((c, v) :: more, ws)
+  | _ => none
+
+def cop : P COp
+  | "CB" :: ws => do
+    let (t, ws) ← tok ws
+    pure (.basic t, ws)
+  | "CE" :: ws => do
+    let (l, ws) ← tok ws; let (r, ws) ← tok ws
+    pure (.enumE l r, ws)
+  | "CL" :: ws => do
+    let (l, ws) ← tok ws; let (f, ws) ← evar ws; let (rest, ws) ← evarRest ws; let (r, ws) ← tok ws
+    pure (.enum l f rest r, ws)
+  | _ => none
+
+partial def copRest : P (List (Tok × COp))
+  | "." :: ws => some ([], ws)
+  | "+" :: ws => do
+    let (p, ws) ← tok ws; let (o, ws) ← cop ws; let (more, ws) ← copRest ws
+    pure ((p, o) :: more, ws)
+  | _ => none
+
 def ty : P Ty
+  | "YC" :: ws => do
+    let (f, ws) ← cop ws; let (rest, ws) ← copRest ws
+    pure (.composed f rest, ws)
   | "YB" :: ws => do
     let (t, ws) ← tok ws
     pure (.basic t, ws)
@@ -144,6 +184,38 @@ def vals : P WhenVals
     pure (.list f r, ws)
   | _ => none
 
+partial def recFields : P (List RecField)
+  | "}" :: ws => some ([], ws)
+  | "F" :: ws => do
+    let (n, ws) ← tok ws; let (c, ws) ← tok ws; let (t, ws) ← ty ws; let (more, ws) ← recFields ws
+    pure (⟨n, c, t⟩ :: more, ws)
+  | _ => none
+
+def parent : P (Option (Tok × Tok × Tok))
+  | "-" :: ws => some (none, ws)
+  | "+" :: ws => do
+    let (a, ws) ← tok ws; let (b, ws) ← tok ws; let (c, ws) ← tok ws
+    pure (some (a, b, c), ws)
+  | _ => none
+
+def tyx : P TyX
+  | "XR" :: ws => do
+    let (k, ws) ← tok ws; let (p, ws) ← parent ws
+    match ws with
+    | "{" :: ws => do
+      let (fs, ws) ← recFields ws; let (e, ws) ← tok ws
+      pure (.record k p fs e, ws)
+    | _ => none
+  | "XP" :: ws => do
+    let (k, ws) ← tok ws; let (ps, ws) ← params ws
+    pure (.procT k ps, ws)
+  | "XF" :: ws => do
+    let (k, ws) ← tok ws; let (ps, ws) ← params ws; let (r, ws) ← tok ws; let (t, ws) ← tok ws
+    pure (.funcT k ps r t, ws)
+  | ws => do
+    let (t, ws) ← ty ws
+    pure (.flat t, ws)
+
 def step : P (Option (Tok × Ex))
   | "-" :: ws => some (none, ws)
   | "+" :: ws => do
@@ -166,10 +238,10 @@ partial def stmt : P (Stmt Ex)
     let (k, ws) ← tok ws
     pure (.ctl k, ws)
   | "SV" :: ws => do
-    let (k, ws) ← tok ws; let (n, ws) ← tok ws; let (c, ws) ← tok ws; let (t, ws) ← ty ws; let (a, ws) ← abs ws
+    let (k, ws) ← tok ws; let (n, ws) ← tok ws; let (c, ws) ← tok ws; let (t, ws) ← tyx ws; let (a, ws) ← abs ws
     pure (.lvar k n c t a, ws)
   | "ST" :: ws => do
-    let (k, ws) ← tok ws; let (n, ws) ← tok ws; let (c, ws) ← tok ws; let (t, ws) ← ty ws
+    let (k, ws) ← tok ws; let (n, ws) ← tok ws; let (c, ws) ← tok ws; let (t, ws) ← tyx ws
     pure (.typeS k n c t, ws)
   | "SS" :: ws => do
     let (k, ws) ← tok ws; let (f, ws) ← tok ws; let (r, ws) ← commas ws
@@ -274,14 +346,14 @@ def decl : P (Decl Ex)
     let (k, ws) ← tok ws; let (n, ws) ← tok ws; let (q, ws) ← tok ws; let (l, ws) ← tok ws; let (m, ws) ← optTok ws
     pure (.const k n q l m, ws)
   | "DV" :: ws => do
-    let (m, ws) ← optTok ws; let (n, ws) ← tok ws; let (c, ws) ← tok ws; let (t, ws) ← ty ws
+    let (m, ws) ← optTok ws; let (n, ws) ← tok ws; let (c, ws) ← tok ws; let (t, ws) ← tyx ws
     match ws with
     | "{" :: ws => do
       let (ms, ws) ← tokList ws; let (a, ws) ← abs ws
       pure (.field m n c t ms a, ws)
     | _ => none
   | "DT" :: ws => do
-    let (k, ws) ← tok ws; let (n, ws) ← tok ws; let (c, ws) ← tok ws; let (t, ws) ← ty ws
+    let (k, ws) ← tok ws; let (n, ws) ← tok ws; let (c, ws) ← tok ws; let (t, ws) ← tyx ws
     pure (.typeD k n c t, ws)
   | "DM" :: ws => do
     let (k, ws) ← tok ws; let (n, ws) ← tok ws
